@@ -98,7 +98,7 @@ def codec_models():
             (B + r'(max_frame_length|length_field_length|length_field_type|length_field_offset|length_adjustment|num_skip|big_endian|little_endian|native_endian)(::<.*>)?$', m_set),
             (B + r'new_codec$', m_new_codec), (r'LengthDelimitedCodec::new$', m_default_codec),
             (r'<LengthDelimitedCodec as (std::clone::)?Clone>::clone$|<length_delimited::Builder as (std::clone::)?Clone>::clone$', m_clone),
-            (r'Framed(Read|Write)::new$', m_framed)]
+            (r'Framed(Read|Write)::(new|with_capacity)$', m_framed)]
 
 
 U32MAX = (1 << 32) - 1
@@ -186,8 +186,13 @@ def ob_codec_wiring(report):
         res2 = ex2.run(fn2, a2)
         total += len(res2)
         own_d2, own_v2 = z3.BitVec(f'cfg.{cidx}.discr', 64), z3.BitVec(f'cfg.{cidx}@Some.0', 64)
+        from props.rpcpath import framed_state_touched
         for r in res2:
             fr = [e for e in r.events if e.kind == 'framed']
+            fs_ = framed_state_touched(r)
+            if fs_:
+                return bad(ex2, 'violated', f'BiStreamRequestHandler::new reaches into a framed stream\'s internal buffer/codec state ({fs_.split("::")[-1]}): every stream must start from an empty '
+                           'buffer and the configured codec', 'wiring-handler-framed-state', r)
             if r.tag != 'return' or sorted(e.name for e in fr) != ['read', 'write']:
                 return bad(ex2, 'violated', 'BiStreamRequestHandler::new does not build one writer and one reader', 'wiring-handler-shape', r)
             for e in fr:
